@@ -32,9 +32,9 @@ CHECKS = {
          "parameters read through get_unique, window test, identity = X-Amz-Credential, compare under the provider's secret (all paths); expiry text of 1-4 bytes and edge values; window outcome = date-900s <= now <= date+expires on a reduced replay of the function's statements (one day, expiry < 10^5 s); 35 reference-presigned cases incl. removal/duplication/alteration of every parameter",
          "the real v4_check_presigned_url exceeded the SAT solver (6.3 M variables): the window is decided on a replay of its statements; crypto uninterpreted",
          "DESIGN.md 5/C06", True),
- "C08": ("kani", "bounded model checking (Kani/CBMC) of the chunk-header grammar, of the two incremental readers under symbolic frame cuts and of the comparison inside check_signature (every presented signature of 63/64/65 arbitrary bytes against a fixed computed one, HMAC stubbed); reference-encoded fault family with real HMAC on the real build",
+ "C08": ("kani", "bounded model checking (Kani/CBMC) of the chunk-header grammar, of the two incremental readers under symbolic frame cuts and of the comparison inside check_signature (every presented signature of 63/64/65 arbitrary bytes against a fixed computed one, HMAC stubbed); source-level symbolic execution (rsx + z3) of the generator AwsChunkedStream::new that composes them, with the readers' contracts as assumptions and chunk sizes / frame lengths / declared length symbolic integers; reference-encoded fault family with real HMAC on the real build",
          "parse_chunk_meta over symbolic size/tag/signature/CRLF/junk bytes; check_signature accepts exactly the byte-wise equal signature and hands on the computed one; read_meta_bytes/read_data equal their single-frame result for every cut; every single fault of a 3-chunk upload (altered/resized/swapped/duplicated/deleted/spliced/re-signed chunk, 14 truncation points, wrong declared length) ends the body with an error after delivering only verified bytes",
-         "the async generator composing the readers does not fit CBMC and is validated by the family only; HMAC chain real in the family, absent in the harnesses",
+         "the compiled generator does not fit CBMC: its composition is decided at source level (<= 3 chunks quick, 4 thorough: frames are yielded only as the next frame of a chunk verified against the chain; Ok only after a verified zero-length chunk with the declared total); HMAC chain real in the family, uninterpreted in the solver queries",
          "DESIGN.md 5/C08", True),
  "C09": ("kani", "bounded model checking (Kani/CBMC) of the chunk-decoder readers under frame cuts (2-safety against the single-frame run); partition/readiness family on the real build for all four body kinds",
          "claimed symbolically only for the chunk-signed readers; multipart, plain and buffered bodies are covered by a family of ~30 partitions x readiness schedules per kind (not solver-decided), which also confirms the known multipart finding",
